@@ -60,7 +60,7 @@ MigSetup ==
         s2 == Apply(Cfg, s1, MigStore).st
         sp == s2.shards[1].sp
     IN <<MigStore, [E0 EXCEPT !.kind = "Complete", !.creator = sp, !.provider = sp, !.order = 1, !.size = 1000]>>
-FullSetup == IF Family = "migrate" THEN SetupEvents \o MigSetup ELSE AllSetup
+FullSetup == IF Family \in {"migrate", "version"} THEN SetupEvents \o MigSetup ELSE AllSetup
 
 InitState == FoldLeft(LAMBDA s, e : Apply(Cfg, s, e).st, Gen.post, FullSetup)
 
@@ -281,6 +281,23 @@ MigrateEvents(s) ==
           IF nx = -1 \/ nx - s.h > 12000 THEN {} ELSE {[E0 EXCEPT !.kind = "Blocks", !.n = nx - s.h + 1]})
     \cup (IF s.h > 3000 THEN Terminates(s) ELSE {})
 
+\* version: one stored model; updates and force-pushes on top of it (one replica, so that one Complete settles them),
+\* abandoned ones (Cancel, or nobody completes and the timeout gives up), renewals of the latest version, time jumping to the
+\* next scheduled height, termination: the version history (C16), rollbacks (C05), the paid term across versions (C11),
+\* payments and collateral of superseded versions (C04, C06, C07) on every step.
+VersionEvents(s) ==
+    (IF ~HasMeta(s, "D1") \/ Len(s.orders) > 3 THEN {}
+     ELSE LET m == MetaOf(s, "D1")  nc == "c" \o ToString(s.oc) IN
+          {[E0 EXCEPT !.kind = "Store", !.creator = Gateway, !.provider = Gateway, !.gw = Gateway, !.owner = "d1", !.signer = "d1",
+                      !.data = "D1", !.commit = m.commit \o "|" \o nc, !.cseg = <<m.commit, nc>>, !.op = o, !.dur = 3600, !.replica = 1,
+                      !.timeout = 1800, !.size = 1000, !.alias = "alD1"] : o \in {1, 2}})
+    \cup Completes(s) \cup Cancels(s)
+    \cup (IF Len(s.orders) <= 3 THEN {[E0 EXCEPT !.kind = "Renew", !.creator = Gateway, !.provider = Gateway, !.owner = m.owner, !.signer = m.owner,
+                                               !.datas = <<m.data>>, !.dur = 3600, !.timeout = 1800] : m \in Rng(s.metas)} ELSE {})
+    \cup (LET nx == NextScheduled(Cfg, Work(s)) IN
+          IF nx = -1 \/ nx - s.h > 12000 THEN {} ELSE {[E0 EXCEPT !.kind = "Blocks", !.n = nx - s.h + 1]})
+    \cup (IF s.h > 1000 THEN Terminates(s) ELSE {})
+
 \* fault: one or two stored models; reports and recovery declarations by the fishman (a03), an ordinary node (a01) and the
 \* accused, about matching and mismatching shard / commit / data ids; time jumps to the next penalty round (every 600
 \* blocks) and across expiry. C19 on every step.
@@ -317,6 +334,7 @@ Events(s) ==
       [] Family = "sponsor" -> SponsorEvents(s)
       [] Family = "fault"   -> FaultEvents(s)
       [] Family = "migrate" -> MigrateEvents(s)
+      [] Family = "version" -> VersionEvents(s)
       [] Family = "gen" -> GStoreNew(s) \cup GStoreMore(s) \cup GStoreUpd(s) \cup GCompletes(s) \cup GCancels(s) \cup GSigned(s)
                            \cup Migrates(s) \cup Claims(s) \cup GBlocks(s) \cup GenDid(s) \cup GenStaking(s) \cup GenFaults(s)
       [] Family = "pay" -> StoreNew(s) \cup StoreUpd(s) \cup Completes(s) \cup Cancels(s) \cup Terminates(s) \cup Renews(s)
